@@ -86,7 +86,7 @@ Section C16.
     R c (store_definition cb name body).
   Proof.
     intros Hdef Hip Hsrc Hrun [I M N Fz].
-    unfold has_definition in Hdef. apply orb_false_elim in Hdef as [Hdef _]. apply orb_false_elim in Hdef as [Hkeys _].
+    unfold has_definition in Hdef. pose proof Hdef as Hkeys.
     unfold is_in_progress in Hip.
     assert (Hipm : in_progress (mark_in_progress c name) = in_progress c ++ [name]).
     { unfold mark_in_progress. cbn. rewrite Hip. reflexivity. }
@@ -151,14 +151,20 @@ Section C16.
       intros [= <- <-]. eapply smap_R; [|exact E].
       intros [key vr] c0 y c0' _. cbn [fst snd].
       assert (Ens : forall name target c1,
-                 (assoc name env = Some target \/ assoc name (overrides cf) = Some target \/ is_synthetic name) ->
+                 (assoc name env = Some target \/ is_synthetic name) ->
                  (if has_definition c0 name || is_in_progress c0 name then Ok c0
-                  else do b <- schema env cf Contextual f seen None (mark_in_progress c0 name) target;
+                  else do b <- schema env cf Contextual f seen None (mark_in_progress c0 name)
+                                  (match assoc name (overrides cf) with Some o => o | None => target end);
                        Ok (store_definition (snd b) name (fst b))) = Ok c1 -> R c0 c1).
       { intros name target c1 Hsrc.
         destruct (has_definition c0 name) eqn:Hd; cbn [orb]; [intros [= <-]; apply R_refl|].
         destruct (is_in_progress c0 name) eqn:Hi; [intros [= <-]; apply R_refl|].
-        destruct (schema env cf Contextual f seen None (mark_in_progress c0 name) target) as [[b cb]|e] eqn:Eb;
+        assert (Hsrc' : let tgt := match assoc name (overrides cf) with Some o => o | None => target end in
+                        assoc name env = Some tgt \/ assoc name (overrides cf) = Some tgt \/ is_synthetic name).
+        { cbv zeta. destruct (assoc name (overrides cf)) as [o|] eqn:O; [right; left; reflexivity|].
+          destruct Hsrc as [A|Sy]; [left; exact A|right; right; exact Sy]. }
+        cbv zeta in Hsrc'.
+        destruct (schema env cf Contextual f seen None (mark_in_progress c0 name) _) as [[b cb]|e] eqn:Eb;
           cbn [bind fst snd]; [|discriminate].
         intros [= <-]. eapply store_step; eauto. }
       destruct (is_ref_node vr) as [name|].
@@ -166,7 +172,7 @@ Section C16.
         match goal with |- (do c1 <- ?e; _) = _ -> _ => destruct e as [c1|e'] eqn:Ee end; cbn [bind]; [|discriminate].
         intros [= <- <-]. eapply Ens; [|exact Ee]. left; exact A.
       + match goal with |- (do c1 <- ?e; _) = _ -> _ => destruct e as [c1|e'] eqn:Ee end; cbn [bind]; [|discriminate].
-        intros [= <- <-]. eapply Ens; [|exact Ee]. right; right. repeat eexists.
+        intros [= <- <-]. eapply Ens; [|exact Ee]. right. repeat eexists.
     - (* ROptional *)
       destruct (schema env cf Contextual f seen None c t) as [[x cx]|e] eqn:E; cbn [bind fst snd]; [|discriminate].
       intros [= <- <-]. eapply IHsub; exact E.
